@@ -52,7 +52,17 @@ int c_var2h(int nvalvar, int nvalh,
 
     /* Set first time step to be immediately before hstart */
     varindex = 0;
-    while(varsec[varindex]<=hstartsec) varindex++;
+    while(varindex<nvalvar && varsec[varindex]<=hstartsec) varindex++;
+
+    /* hstart is not smaller than the last value in varsec:
+     * there is no interval to integrate, every period is missing */
+    if(varindex>=nvalvar)
+    {
+        for(i=0; i<nvalh-1; i++)
+            hvalues[i] = zero/zero;
+        return 0;
+    }
+
     varindex--;
 
     /* hstart is smaller than first value in varsec */
